@@ -35,6 +35,25 @@ type World struct {
 	ncalls int
 	// FK adds _fk=1 to the target's URL: the connection enforces foreign keys.
 	FK bool
+	// Clock is the simulated wall clock (unix seconds) the CLI names new files after (clock seam,
+	// VERIF_NOW). It advances by one second per invocation, so that no two files share a version
+	// unless a scenario holds it still on purpose (SameSecond).
+	Clock      int64
+	SameSecond bool
+}
+
+// SimEpoch is where the simulated clock starts: 2024-01-01 00:00:00 UTC.
+const SimEpoch = 1704067200
+
+// now returns the clock value of the next invocation and advances the clock.
+func (w *World) now() string {
+	if w.Clock == 0 {
+		w.Clock = SimEpoch
+	}
+	if !w.SameSecond {
+		w.Clock++
+	}
+	return fmt.Sprintf("VERIF_NOW=%d", w.Clock)
 }
 
 // NewWorld creates the world under the run's scratch directory.
@@ -102,7 +121,7 @@ func (w *World) Atlas(extraEnv []string, args ...string) CmdResult {
 	cmd.Dir = w.Root
 	cmd.Env = append([]string{
 		"ATLAS_NO_UPGRADE_SUGGESTIONS=1", "ATLAS_NO_UPDATE_NOTIFIER=1",
-		"HOME=" + w.Home, "TMPDIR=" + w.Tmp, "PATH=/usr/bin:/bin", "NO_COLOR=1",
+		"HOME=" + w.Home, "TMPDIR=" + w.Tmp, "PATH=/usr/bin:/bin", "NO_COLOR=1", w.now(),
 	}, extraEnv...)
 	var so, se bytes.Buffer
 	cmd.Stdout, cmd.Stderr = &so, &se
